@@ -320,6 +320,12 @@ func checkKeyIO(c keyioCase) (err error) {
 		return []dns.RR{&dns.A{Hdr: dns.RR_Header{Name: "host.keys.example.", Rrtype: dns.TypeA, Class: dns.ClassINET, Ttl: c.TTL}, A: net.IP(c.A[:])}}
 	}
 	tag := ref.KeyTag(ref.DNSKEYRdata(flags, 3, c.Alg, oct))
+	if tag == 0 {
+		// a legal key tag (1 key in 65536), but RRSIG.Sign treats KeyTag == 0 as "not filled in" and
+		// returns ErrKey by contract: the signing part cannot be exercised with this key
+		pbt.Class("keytag-zero(sign/verify part skipped)")
+		return nil
+	}
 	newSig := func() *dns.RRSIG {
 		return &dns.RRSIG{Inception: c.Incep, Expiration: c.Expir, KeyTag: tag, SignerName: "keys.example.", Algorithm: c.Alg}
 	}
